@@ -44,6 +44,7 @@ def finish(eng, prop, args, seed, results, wall):
     violations, undecided, errors, vacuous = [], [], [], []
     functions, samples, trusted = [], [], set()
     covers = covers_ok = 0
+    inconclusive = []
     for r in results:
         if r.get("error"):
             errors.append(f"{r['key']}: {r['error']}")
@@ -65,6 +66,8 @@ def finish(eng, prop, args, seed, results, wall):
                 covers += 1
                 if ob["status"] == "sat":
                     covers_ok += 1
+                elif ob["status"] == "inconclusive":
+                    inconclusive.append(ob["oid"])
                 elif ob["status"] == "unsat":
                     vacuous.append(ob["oid"])
                 else:
@@ -149,7 +152,7 @@ def finish(eng, prop, args, seed, results, wall):
             "functions_under_contract": functions,
             "obligations_by_kind": by_kind, "discharged_by_backend": by_backend,
             "solver_time_s": round(solver_s, 3),
-            "covers": covers, "covers_satisfiable": covers_ok,
+            "covers": covers, "covers_satisfiable": covers_ok, "covers_inconclusive": inconclusive,
             "undecided": undecided[:50], "failing": [stable_id(o["oid"]) for o in violations],
             "known_findings_hit": sorted({k["id"] for k, _ in known_hits}),
             "bounded_stand_ins": bounded,
